@@ -4,6 +4,7 @@ import (
 	"fmt"
 	"go/token"
 	"go/types"
+	"sort"
 	"strings"
 
 	"golang.org/x/tools/go/ssa"
@@ -98,6 +99,7 @@ func (f *FnVC) doCall(st *State, instr ssa.Instruction, c *ssa.CallCommon, keys 
 	}
 	if site != nil {
 		site.res = res
+		site.postSt = st.clone()
 		if site.mergedInto != nil {
 			prev := site.mergedWith.res
 			if prev.Tuple == nil && res.Tuple == nil && prev.T.Sort == res.T.Sort && res.T.S != "" {
@@ -426,7 +428,28 @@ func (f *FnVC) havocCall(st *State, fn *ssa.Function, c *ssa.CallCommon, args []
 // havocByModset forgets every heap component the callee may write.
 func (f *FnVC) havocByModset(st *State, fn *ssa.Function, c *ssa.CallCommon, args []Val) {
 	ms := f.E.modsetOfCall(f, fn, c)
+	before := st.clone()
+	f.preserveLocalsOnHavoc = true
 	f.havocModset(st, ms)
+	f.preserveLocalsOnHavoc = false
+	// memory of non-escaping locals of this function cannot be touched by a callee
+	if st.Epoch == before.Epoch && len(st.Locals) > 0 {
+		var names []string
+		for name, t := range st.Heap {
+			if old, ok := before.Heap[name]; (!ok || old.S != t.S) && strings.HasPrefix(t.Sort, "(Array Int ") && name != heldComp {
+				names = append(names, name)
+			}
+		}
+		sort.Strings(names)
+		for _, name := range names {
+			old := f.comp(before, name, st.Heap[name].Sort)
+			cur := st.Heap[name]
+			for _, r := range st.Locals {
+				cur = store(cur, r, sel(old, r))
+			}
+			st.Heap[name] = f.SC.Define("H_"+name, cur)
+		}
+	}
 	// memory reachable from the arguments (one level) for callees outside the analysed module
 	if ms.argReach && !ms.all {
 		for _, a := range args {
